@@ -11,7 +11,7 @@ import os
 from dataclasses import dataclass, field
 from typing import Any, List, Optional
 
-from .world import CLASSES, FUNC_PREDS, CLASS_PREDS, dec
+from .world import CLASSES, FUNC_PREDS, CLASS_PREDS, dec, TYPES
 from .ast import OPS
 
 from entity_query_language import (an, the, entity, set_of, let, and_, or_, not_, contains, in_, symbolic_mode,
@@ -138,7 +138,7 @@ def build_cond(c, V):
         return cls(**{n: build_term(a, V) for n, a in zip(names, c[2])})
     if k == "hastype":
         form = c[3] if len(c) > 3 else "kw"
-        v, t = build_term(c[1], V), CLASSES[c[2]]
+        v, t = build_term(c[1], V), TYPES[c[2]]
         if form == "pos":
             return HasType(v, t)
         if form == "pos_kw":
